@@ -25,6 +25,11 @@ def kadj_case(i, date="2023-06-21", lat=45.0, lon=10.0):
          "intervals": {"Fajr": intF, "Isha": intI}}
     if i.get("mins"):
         p["minutes"] = {k: float(v) for k, v in i["mins"].items() if v is not None}
+    # the observer's latitude / longitude of the solver's model (a policy may look at them, e.g. to pick the substitute latitude)
+    if isinstance(i.get("lat"), (int, float)) and -89.9 <= i["lat"] <= 89.9:
+        lat = float(i["lat"])
+    if isinstance(i.get("lon"), (int, float)) and -180 <= i["lon"] <= 180:
+        lon = float(i["lon"])
     return {"api": "k_adj", "params": p, "hours": [h.get(k) for k in SIX], "lat": lat, "lon": lon, "elev": 0.0, "date": date, "gmt": 1.0}
 
 
@@ -117,10 +122,27 @@ def confirm_kadj(rep, results, pid):
     """Replay policy-clause candidates through the real adj_for_ext_lat (kernel replay). Only violations of property `pid`
     (or of any property when pid is None) are reported."""
     cands = [c for x in results for c in x["cands"] if c.get("inputs", {}).get("policy") and "hours" in c.get("inputs", {})]
-    if not cands:
-        return False
     cases = []
     rnd = random.Random(int(os.environ.get("VERIF_SEED", "0") or 0))
+    # an undecided policy obligation (error, unsupported construct, solver timeout) has no model to replay: every validity pattern
+    # of the six conventional hours x the interval configurations of the named methods (and a custom Fajr interval) instead
+    base = {"Fajr": 4.5, "Shurooq": 6.0, "Dhuhr": 12.1, "Asr": 15.5, "Maghrib": 18.2, "Isha": 19.6}
+    for x in results:
+        if not x.get("inconclusive") and getattr(rep, "tier", "quick") != "thorough":
+            continue
+        mm = re.search(r"adj_for_ext_lat\[(\w+)\]", x.get("name", "")) or re.search(r"\('(\w+)', \[", x.get("name", ""))
+        if not mm or mm.group(1) in GOOD:
+            continue
+        pol = mm.group(1)
+        for mask in range(64):
+            if mask & 4 == 0:          # Dhuhr always exists
+                continue
+            for intF, intI in ((0.0, 0.0), (0.0, 90.0), (20.0, 0.0), (20.0, 90.0)):
+                hh = {k: (base[k] + rnd.uniform(-0.3, 0.3) if mask >> n & 1 else None) for n, k in enumerate(SIX)}
+                cases.append(kadj_case({"policy": pol, "hours": hh, "angF": rnd.uniform(9, 21), "angI": rnd.uniform(9, 21),
+                                        "intF": intF, "intI": intI, "near_lat": rnd.choice([48.5, 45.0, -48.5])}))
+    if not cands and not cases:
+        return False
     for c in cands[:60]:
         i = c["inputs"]
         if i["policy"] in GOOD:
@@ -568,6 +590,15 @@ def purity_native(rep):
             q = copy.deepcopy(p)
             q[k] = v
             out.append(q)
+        # the ADJACENT date requested just before, for another GMT offset / place (state advanced incrementally from the previous call,
+        # e.g. a sliding three-day ephemeris window that recognises "the next day" by the calendar date alone)
+        d0 = datetime.date.fromisoformat(p["date"])
+        for dd in (-1, 1):
+            for k, v in (("gmt", p["gmt"] + 3.0), ("gmt", p["gmt"] - 0.5), ("lon", p["lon"] + 40.0), ("lat", p["lat"] - 7.0)):
+                q = copy.deepcopy(p)
+                q["date"] = (d0 + datetime.timedelta(days=dd)).isoformat()
+                q[k] = v
+                out.append(q)
         return out
     seq, idx = [], []
     for i, p in enumerate(probes):
@@ -578,14 +609,14 @@ def purity_native(rep):
     for i, j, v in idx:
         p = probes[i]
         diff = [k for k in ("round", "minutes", "intervals", "angles", "asr", "ext", "method") if v["params"].get(k) != p["params"].get(k)] + \
-               [k for k in ("elev", "weather", "lon", "lat", "gmt") if v.get(k) != p.get(k)]
+               [k for k in ("elev", "weather", "lon", "lat", "gmt") if v.get(k) != p.get(k)] + (["date (adjacent day)"] if v.get("date") != p.get("date") else [])
         # both calls of the pair are judged against a fresh process: the variant itself may be the one served from stale state
         for who, got, fresh, pre in (("second", outs[j], alone[i], [v, p]), ("first", outs[j - 1], None, seq[max(0, j - 3):j])):
             if fresh is None:
                 fresh = replay.run([v])[0]
             if got.get("times") != fresh.get("times"):
                 rep.violation("hidden-state", "prayer_times_dt(%s, lat %s, gmt %s) returns a different result when earlier calls in the same process "
-                              "were for the same place and date with a different %s" % (p["date"], p["lat"], (p if who == "second" else v)["gmt"], "/".join(diff)),
+                              "were for the same place and (adjacent) date with a different %s" % (p["date"], p["lat"], (p if who == "second" else v)["gmt"], "/".join(diff)),
                               pre, {"alone": fresh, "after_variant_call": got})
                 return True
     rep.assumptions.append("history independence of prayer_times_dt checked natively on %d probe calls interleaved with %d calls for other places/offsets "
